@@ -8,6 +8,7 @@ The contracts of the linear_operator primitives (`solve` returns `A⁻¹b`, `L L
 hypotheses.
 -/
 import GPVerif.Model.ExactGP
+import GPVerif.Bridge.GenAlgebra
 import Mathlib.LinearAlgebra.Matrix.SchurComplement
 import Mathlib.Data.Matrix.ColumnRowPartitioned
 import Mathlib.Tactic.Abel
@@ -198,6 +199,91 @@ theorem driver_conditional_correct [DecidableEq α] (J : DMat (n + s) (n + s) α
     subst hP
     refine ⟨hu, ?_⟩
     simp [marginal, predMean, meanCacheOf, predCovarOfInv, predCovarOfSolve, residual, hi, Matrix.mul_assoc]
+
+/-! ### The regenerated code (`GPVerif/Gen/ExactAlgebra.lean`, translator G7) is the closed form
+
+These are about the expressions that `harness/translate/g7_exact_algebra.py` extracts from the Python AST of
+`DefaultPredictionStrategy` on every run (and that `drivers/C01.lean` executes).  They are short corollaries of
+the theorems above; when the source changes (a dropped `mul(-1)`, a missing transpose, swapped `alpha`/`beta`, a
+wrong slice bound) the regenerated definitions change and these proofs no longer build. -/
+
+section generated
+open Gen.ExactAlgebra
+variable [DecidableEq α]
+
+omit [DecidableEq α] in
+/-- The generated split of the joint at `num_train` — eager *and* lazy slicing — is the block split of the model:
+`(test_mean, test_train, test_test, test_train)`. -/
+theorem gen_split_eq (cfg : Cfg) (J : DMat (n + s) (n + s) α) (mj : DMat (n + s) 1 α) :
+    split cfg J mj = ((splitMean mj).2, (splitLazy J).1, (splitLazy J).2, (splitLazy J).1) := by
+  unfold split
+  split_ifs <;>
+    simp only [slice_mean_test, slice_test_train, slice_test_test, slice_rows_then_train, slice_rows_then_test]
+
+/-- Generated `exact_predictive_mean` (policy `ignore`) = conditional mean. -/
+theorem gen_predMean_eq_conditional (cfg : Cfg) (hp : cfg.policy = Policy.ignore) (mt : DMat s 1 α)
+    (Kts : DMat s n α) (A : DMat n n α) (mx y : DMat n 1 α) (obs : Fin n → Bool) (c : α) (m : DMat s 1 α)
+    (h : exact_predictive_mean cfg mt Kts A mx y obs c = some m) :
+    m.toMatrix = mt.toMatrix + Kts.toMatrix * A.toMatrix⁻¹ * (y.toMatrix - mx.toMatrix) := by
+  simp only [exact_predictive_mean, hp, if_true, Option.bind_eq_bind, Option.bind_eq_some_iff,
+    Option.pure_def] at h
+  obtain ⟨x, hx, hm⟩ := h
+  obtain ⟨hx, -⟩ := solve?_eq_some hx
+  rw [← Option.some.inj hm]
+  simp [hx, Matrix.mul_assoc, add_comm]
+
+/-- Generated `exact_predictive_covar`, `fast_pred_var` off, in all three code shapes (`addmm(beta=1, alpha=-1)`,
+`+ … @ rhs.mul(-1)`, `+ MatmulLinearOperator(…, rhs.mul(-1))`) = conditional covariance. -/
+theorem gen_predCovar_eq_conditional (cfg : Cfg) (hp : cfg.policy = Policy.ignore) (hs : cfg.skip = false)
+    (hf : cfg.fast = false) (Ktt : DMat s s α) (Kts : DMat s n α) (A : DMat n n α) (R : DMat n k α)
+    (obs : Fin n → Bool) (C : DMat s s α) (h : exact_predictive_covar cfg Ktt Kts A R obs = some C) :
+    C.toMatrix = Ktt.toMatrix - Kts.toMatrix * A.toMatrix⁻¹ * Kts.toMatrixᵀ := by
+  simp only [exact_predictive_covar, hp, hs, hf, if_true, Bool.false_eq_true, if_false] at h
+  split_ifs at h <;>
+  · simp only [Option.bind_eq_bind, Option.bind_eq_some_iff, Option.pure_def] at h
+    obtain ⟨x, hx, hC⟩ := h
+    obtain ⟨hx, -⟩ := solve?_eq_some hx
+    rw [← Option.some.inj hC]
+    simp [hx, Matrix.mul_assoc, sub_eq_add_neg]
+
+/-- Generated `exact_predictive_covar`, `fast_pred_var` on, both code shapes: if the cached `R` is a root of the
+inverse it is the conditional covariance. -/
+theorem gen_predCovarRoot_eq_conditional (cfg : Cfg) (hp : cfg.policy = Policy.ignore) (hs : cfg.skip = false)
+    (hf : cfg.fast = true) (Ktt : DMat s s α) (Kts : DMat s n α) (A : DMat n n α) (R : DMat n k α)
+    (obs : Fin n → Bool) (hR : R.toMatrix * R.toMatrixᵀ = A.toMatrix⁻¹) (C : DMat s s α)
+    (h : exact_predictive_covar cfg Ktt Kts A R obs = some C) :
+    C.toMatrix = Ktt.toMatrix - Kts.toMatrix * A.toMatrix⁻¹ * Kts.toMatrixᵀ := by
+  simp only [exact_predictive_covar, hp, hs, hf, if_true, Bool.false_eq_true, if_false] at h
+  split_ifs at h <;>
+  · simp only [Option.pure_def, Option.some.injEq] at h
+    rw [← h, ← hR]
+    simp [Matrix.transpose_mul, Matrix.mul_assoc, sub_eq_add_neg]
+
+/-- Generated `exact_predictive_covar` under `skip_posterior_variances`: the zero operator, on every branch. -/
+theorem gen_predCovar_skip (cfg : Cfg) (hs : cfg.skip = true) (Ktt : DMat s s α) (Kts : DMat s n α)
+    (A : DMat n n α) (R : DMat n k α) (obs : Fin n → Bool) :
+    exact_predictive_covar cfg Ktt Kts A R obs = some GenOps.zeros := by
+  simp only [exact_predictive_covar, hs, if_true]
+  split_ifs <;> rfl
+
+/-- The generated `exact_prediction` (what the driver runs) is the generated split followed by the generated mean
+and covariance functions, with `torch.is_tensor(test_test_covar)` decided by the eager flag. -/
+theorem gen_exact_prediction_eq (cfg : Cfg) (J : DMat (n + s) (n + s) α) (mj : DMat (n + s) 1 α) (A : DMat n n α)
+    (mx y : DMat n 1 α) (R : DMat n k α) (obs : Fin n → Bool) (c : α) :
+    exact_prediction cfg J mj A mx y R obs c =
+      (exact_predictive_mean cfg (split cfg J mj).1 (split cfg J mj).2.1 A mx y obs c).bind fun m =>
+        (exact_predictive_covar { cfg with ttIsTensor := cfg.eager } (split cfg J mj).2.2.1 (split cfg J mj).2.2.2
+          A R obs).bind fun C => some (m, C) := by
+  unfold exact_prediction exact_predictive_mean exact_predictive_covar split
+  split_ifs <;> simp_all [Option.bind_eq_bind, Option.pure_def, Option.bind_assoc]
+
+/-- Structural facts of `ExactGP.__call__` read off its AST: the joint is `torch.cat([train_input, input], dim=-2)`,
+`exact_prediction(full_mean, full_covar)` is called once, inside `cg_tolerance(eval_cg_tolerance.value())`; and the
+translated source is shape-consistent (no re-sizing had to be inserted). -/
+theorem gen_call_facts : catTrainFirst = true ∧ catDimPoints = true ∧ evalTolInForce = true ∧
+    predictsFromJoint = true ∧ shapeMismatches = 0 := by decide
+
+end generated
 
 /-! ### The hypotheses are satisfiable (non-vacuity) -/
 
